@@ -183,6 +183,8 @@ type Check struct {
 	Run   func(c *Ctx)
 	// Explanation of what is decided / not decided, for evidence.
 	Explain string
+	// Technique: a few words naming the deciding method (MANIFEST.technique).
+	Technique string
 }
 
 var Registry = map[string]*Check{}
